@@ -167,6 +167,18 @@ CHECKS["C11"] = dict(
     note="One recorded finding (second replace_task during the clean-up of the first) is listed in known_findings.json. "
          "Bootstrappers and the hidden-service overlay are not exercised.")
 
+CHECKS["C01"] = dict(
+    category="exploration", design_ref="DESIGN.md 2/C01, Appendix A",
+    technique="mutation-based fuzzing of captured valid traffic with a reference signature verdict and handler-entry instrumentation",
+    text="Every datagram an observed node receives in 8 scripted honest overlay runs is mutated exhaustively by position (bit "
+         "flip per byte - all 8 bits in thorough -, every truncation, extensions, key / signature substitutions incl. a fully "
+         "valid attacker-signed variant, splices, prefix and message-id swaps, key-length edits, sibling replay) and delivered "
+         "through the production receive path; entry into lazy_wrapper-decorated inner handlers (observed through closure "
+         "shims), the peer identity handed over, replies and verified-peer gains are judged against a verdict computed from "
+         "the bytes alone; the declared decorators are compared with the documented table of authenticated ids.",
+    note="Trusted: the Rust signature primitive and specs/auth_table.json. The hidden-service overlay is covered through its "
+         "TunnelCommunity base only. Exceptions escaping the receive path are judged by C03.")
+
 PENDING = {}
 
 def main():
